@@ -659,3 +659,10 @@ def ensemble_members_keep_their_starting_points(ctx):
     """an ensemble member's stored energies belong to its stored vectors: the ensemble draws starting points only while it has no members (shared with C09.k)"""
     from .c09 import starting_points_are_drawn_once
     starting_points_are_drawn_once(ctx)
+
+
+@rule('C01.p', min_instances=3)
+def member_vectors_can_hold_the_evaluated_point(ctx):
+    """member energies match members: the rows of the population are float vectors from the start (shared with C08.k) - an integer row truncates the accepted trial, so the stored member was never passed to the cost"""
+    from .c08 import members_are_float_vectors
+    members_are_float_vectors(ctx)
